@@ -96,6 +96,10 @@ pub enum Ctl {
         start: i32,
         n: i32,
     },
+    /// `transform_entry` on key `key` of map item `item`: sets it to `value` (whether or not it was present)
+    /// or, with `remove`, removes it; then a snapshot of the whole map is recorded as ground truth.
+    #[form(tag = "xf")]
+    Xf { item: i32, key: i32, value: i32, remove: bool },
     #[form(tag = "no")]
     Nop,
 }
@@ -109,6 +113,8 @@ pub enum TruthEv {
     Update { item: &'static str, key: String, value: i32 },
     Remove { item: &'static str, key: String },
     Clear { item: &'static str },
+    /// The whole content of a map item read back with `get_map` at the end of a control command.
+    MapSnap { item: &'static str, map: BTreeMap<String, i32> },
     /// `on_command` of the `cmd` lane.
     Command { value: i32 },
     /// A control command was handled (after all of its effects).
@@ -189,6 +195,40 @@ fn clr_item(context: Ctx, item: i32) -> Boxed {
         1 => context.clear(SimAgent::BMAP).boxed_local(),
         2 => context.clear(SimAgent::TMAP).boxed_local(),
         _ => context.clear(SimAgent::MSTORE).boxed_local(),
+    }
+}
+
+fn xf_item(context: Ctx, item: i32, k: i32, v: i32, remove: bool) -> Boxed {
+    let f = move |_: Option<&i32>| if remove { None } else { Some(v) };
+    match item {
+        0 => context.transform_entry(SimAgent::MAP, k, f).boxed_local(),
+        1 => context.transform_entry(SimAgent::BMAP, k, f).boxed_local(),
+        2 => context.transform_entry(SimAgent::TMAP, k, f).boxed_local(),
+        _ => context.transform_entry(SimAgent::MSTORE, k, f).boxed_local(),
+    }
+}
+
+fn snap_item(context: Ctx, me: SimLifecycle, item: i32) -> Boxed {
+    fn conv<I: IntoIterator<Item = (i32, i32)>>(m: I) -> BTreeMap<String, i32> {
+        m.into_iter().map(|(k, v)| (k.to_string(), v)).collect()
+    }
+    match item {
+        0 => context
+            .get_map(SimAgent::MAP)
+            .and_then(move |m: HashMap<i32, i32>| context.effect(move || me.rec(TruthEv::MapSnap { item: "map", map: conv(m) })))
+            .boxed_local(),
+        1 => context
+            .get_map(SimAgent::BMAP)
+            .and_then(move |m: BTreeMap<i32, i32>| context.effect(move || me.rec(TruthEv::MapSnap { item: "bmap", map: conv(m) })))
+            .boxed_local(),
+        2 => context
+            .get_map(SimAgent::TMAP)
+            .and_then(move |m: HashMap<i32, i32>| context.effect(move || me.rec(TruthEv::MapSnap { item: "tmap", map: conv(m) })))
+            .boxed_local(),
+        _ => context
+            .get_map(SimAgent::MSTORE)
+            .and_then(move |m: HashMap<i32, i32>| context.effect(move || me.rec(TruthEv::MapSnap { item: "mstore", map: conv(m) })))
+            .boxed_local(),
     }
 }
 
@@ -493,6 +533,10 @@ impl SimLifecycle {
                         );
                     }
                 }
+            }
+            Ctl::Xf { item, key, value, remove } => {
+                hs.push(xf_item(context, item, key, value, remove));
+                hs.push(snap_item(context, self.clone(), item));
             }
             Ctl::Nop => hs.push(UnitHandler::default().boxed_local()),
         }
